@@ -41,13 +41,17 @@ def gen(rng, tier):
     # chain id that is bound is the one written, or the document is refused — never a rounded neighbour
     import json as _json4
     for kind in ("legacy", "eip2930", "eip1559"):
-        for tok in ("18446744073709551617", "100000000000000000000000", str(2 ** 200 + 12345), "1e23", "18446744073709551616", "9007199254740993", "1.8446744073709552e19"):
+        for tok in ("18446744073709551617", "100000000000000000000000", str(2 ** 200 + 12345), "1e23", "18446744073709551616", "9007199254740993", "1.8446744073709552e19",
+                    # a chain id that is SUPPLIED but cannot be read (negative, fraction, wrong kind, malformed text) is an error with
+                    # and without the override flag: it is not the same as no chain id
+                    "-1", "1.5", "true", "[]", "{}", '"abc"', '""', '"0x"', '"-1"', '"1 "', "[1]"):
             j, _ = txgen.rand_tx(rng, kind=kind, chain=1, spellings=["dec-str"])
             obj = _json4.loads(j)
             obj["chainId"] = "@@T@@"
             txt = _json4.dumps(obj).replace('"@@T@@"', tok)
             for so in (0, 1):
-                cases.append(Case("cli.sign_tx %s - default %s %d 0" % (mn, hx(txt), so), runner="cli", tags=("bare-number-chain", "kind:" + kind), meta={"via": {}, "via_file": False, "token": tok}))
+                for allow in (0, 1):
+                    cases.append(Case("cli.sign_tx %s - default %s %d %d" % (mn, hx(txt), so, allow), runner="cli", tags=("bare-number-chain", "kind:" + kind, "allow:%d" % allow), meta={"via": {}, "via_file": False, "token": tok}))
     # the guard looks at the chain id only: recipient present / absent / null, calldata empty or not, value zero or not
     import json as _json
     for to in ("addr", "absent", "null"):
